@@ -45,8 +45,8 @@ RULE = (
     "reference with identical parameters) were evaluated on it; non-trivial cases are counted per (model, state key, operation)"
 )
 ASSUMPTIONS = [
-    "models are hand-written parameter sets loaded through BaseModel.load(dict); fits are tiny (3 or 2 individuals, n_iter=3), "
-    "MCMC personalizations use n_iter=10, scipy_minimize its defaults; cohorts A (3 individuals), B (2 individuals), C (1 individual, personalization only)",
+    "models are hand-written parameter sets loaded through BaseModel.load(dict); fits are tiny (cohorts A or D, 3 individuals, n_iter=3), "
+    "MCMC personalizations use n_iter=10, scipy_minimize its defaults; personalization cohorts A (3 individuals), B (2), C (1)",
     "every call is given an explicit seed (the property speaks of 'parameters, inputs and the seed'); n_jobs=1",
     "fit is only a history-making operation: nothing is demanded of fit itself (a fit started on an object that still holds "
     "another cohort's latent values fails - that history is pruned and counted as an outcome)",
@@ -59,16 +59,18 @@ ASSUMPTIONS = [
 ALGOS = ("scipy_minimize", "mode_posterior", "mean_posterior")
 
 QUICK_SPECS = ("logistic_d2_s1_diag", "joint_d2_s1_diag", "logistic_d2_s0_diag")
+# thorough: depth 4 on one model of each of the four kinds, depth 3 (thorough menu) on three more configurations
 THOROUGH_SPECS = (
-    "logistic_d2_s1_diag", "logistic_d2_s0_diag", "logistic_d2_s1_scalar", "joint_d2_s1_diag", "joint_d1_s0_scalar",
-    "linear_d2_s1_diag", "shared_d2_s1_diag",
+    "logistic_d2_s1_diag", "joint_d2_s1_diag", "linear_d2_s1_diag", "shared_d2_s1_diag",
+    "logistic_d2_s0_diag", "logistic_d2_s1_scalar", "joint_d1_s0_scalar",
 )
+THOROUGH_DEPTH = {n: (4 if i < 4 else 3) for i, n in enumerate(THOROUGH_SPECS)}
 
 
 def menu(spec, tier):
     forms = L.forms_for(spec)
     ops = []
-    for i, c in enumerate(("A", "B")):
+    for i, c in enumerate(("A", "D")):
         ops.append(["fit", c, forms[(2 * i) % len(forms)]])
     ops.append(["estimate"])
     k = 0
@@ -101,14 +103,14 @@ def bounds(tier):
         return {
             "models": list(QUICK_SPECS),
             "depth": 3,
-            "menu": "fit(A), fit(B), estimate, personalize: scipy(A,B,C) mode(B) mean(B), simulate[dataframe] (logistic), save+load; "
+            "menu": "fit(A), fit(D), estimate, personalize: scipy(A,B,C) mode(B) mean(B), simulate[dataframe] (logistic), save+load; "
                     "input forms rotate over DataFrame with columns / DataFrame indexed by (ID, TIME) / Data / Dataset",
             "seeds": "algorithm seed 0 (+ VERIF_SEED on the first model)",
         }
     return {
         "models": list(THOROUGH_SPECS),
-        "depth": 4,
-        "menu": "fit(A), fit(B), estimate, personalize: 3 algorithms x cohorts A,B + scipy/mode on the single-individual cohort C + every input form for scipy_minimize/B and "
+        "depth": dict(THOROUGH_DEPTH),
+        "menu": "fit(A), fit(D), estimate, personalize: 3 algorithms x cohorts A,B + scipy/mode on the single-individual cohort C + every input form for scipy_minimize/B and "
                 "mode_posterior/B, simulate[dataframe|random] (logistic), save+load",
         "seeds": "algorithm seed 0 (+ VERIF_SEED on the first two models)",
     }
@@ -116,9 +118,9 @@ def bounds(tier):
 
 def shards(tier, seed):
     specs = QUICK_SPECS if tier == "quick" else THOROUGH_SPECS
-    depth = 3 if tier == "quick" else 4
     out = []
     for i, name in enumerate(specs):
+        depth = 3 if tier == "quick" else THOROUGH_DEPTH[name]
         seeds = [0]
         if seed not in seeds and i < (1 if tier == "quick" else 2):
             seeds.append(int(seed))
@@ -214,3 +216,27 @@ def replay(case):
         model = L.materialize(spec, case["history"], case["seed"], wd)
         tr = L.check_transition(model, spec, case["op"], case["seed"], wd)
     return [{"signature": s, "message": m} for s, m, _, _ in tr.violations]
+
+
+def self_check():
+    """Harness self-check (failure = harness error): the recording wrapper around scipy.optimize.minimize is seen by
+    leaspy, alters nothing, and the deep canonical form tells apart what it must."""
+    import numpy as np
+    import pandas as pd
+
+    spec = MODEL_SPECS["logistic_d2_s0_diag"]
+    op = ["personalize", "scipy_minimize", "C", "data"]
+    out = []
+    for recorder in (L.Recorder(), None):
+        res = L.call(L.build_model(spec), op, L.make_inputs(spec, op, 0), recorder)
+        out.append(L.result_canon(op, res))
+        if recorder is not None and len(recorder.x0) != 1:
+            raise RuntimeError("C13 self-check: the minimize wrapper did not see exactly one optimisation")
+    if out[0] != out[1]:
+        raise RuntimeError("C13 self-check: recording the optimiser's starting point changed the result")
+    a = pd.DataFrame({"ID": ["x", "y"], "TIME": [1.0, 2.0]})
+    variants = [a.copy(), a.iloc[::-1], a.astype({"TIME": "float32"}), a.set_index("ID"), a.assign(TIME=[1.0, np.nan]),
+                a.rename(columns={"TIME": "T"}), a.reset_index(drop=True).rename(index={1: 5})]
+    forms = [repr(L.canon(v)) for v in variants]
+    if forms[0] != repr(L.canon(a)) or len(set(forms)) != len(forms):
+        raise RuntimeError("C13 self-check: canonical form of tables is not discriminating")
